@@ -34,14 +34,18 @@ def run(ctx):
         for order in (2, 3, 4, 5, 6):
             nodes, w = fd[order + 1]
             for nz in sorted({order + 1, order + 2, 9 if quick else 11}):
-                for iota in (0.0, 0.8):
+                for iota in (0.0, 0.8, "r-dependent"):
                     L = fa.Lines(sp, nz, rng)
                     R0 = 2.0
                     rs = np.array([0.5, 1.0, 1.7, 2.5, 3.1])
                     dz = 0.5
                     eta = [rs, L.theta, np.arange(nz, dtype=float) * dz, np.array([0.0, 1.0])]
-                    c = fa.consts(iota, R0)
-                    tau = iota * dz / R0
+                    rdep = isinstance(iota, str)
+                    # the operator evaluates iota(r) per radius (tables per surface): a transform that depends on r, negative inside
+                    iof = (lambda r: 0.6 * np.asarray(r, dtype=float) - 0.7) if rdep else (lambda r: np.full_like(np.asarray(r, dtype=float), iota))
+                    c = fa.consts(0.0 if rdep else iota, R0)
+                    if rdep:
+                        c.iota = iof
                     for (nprocs, coords) in (([1], [[0]]), ([2], [[0], [1]]), ([3], [[2]])):
                         for rc in coords:
                             lay = Layout("v_parallel_1d", nprocs, [0, 2, 1], eta[:3], rc)
@@ -62,7 +66,9 @@ def run(ctx):
                                     ctx.violation({"kind": "gradient-raises", "error": type(ex).__name__, "order": order}, "parallel_gradient raised %s: %s" % (type(ex).__name__, ex),
                                                   {"space": sp.key(), "nz": nz, "order": order})
                                     continue
-                                bz = 1.0 / np.sqrt(1.0 + (rs[gr] * iota / R0) ** 2)
+                                io = float(iof(rs[gr]))
+                                tau = io * dz / R0
+                                bz = 1.0 / np.sqrt(1.0 + (rs[gr] * io / R0) ** 2)
                                 want = np.zeros_like(phi_r)
                                 for m in range(nz):
                                     for i, th in enumerate(L.theta):
@@ -76,7 +82,7 @@ def run(ctx):
                                 ncase += 1
                                 ctx.count((order, sp.key(), nz, iota, tuple(nprocs), tuple(rc), gr))
                                 if not err <= 1e-8:
-                                    ctx.violation({"kind": "value", "order": order, "iota_zero": iota == 0.0, "distributed": nprocs != [1], "path": sp.kind},
+                                    ctx.violation({"kind": "value", "order": order, "iota_zero": iota == 0.0, "iota_r_dependent": rdep, "distributed": nprocs != [1], "path": sp.kind},
                                                   "parallel_gradient (order %d, local radius index %d = global %d, layout %s rank %s) deviates by %g from "
                                                   "b_z/dz * sum_k w_k S_(j+k)(theta + k tau); nz=%d, tau=%g, theta space %s" % (
                                                       order, li, gr, nprocs, rc, err, nz, tau, sp.key()),
